@@ -683,7 +683,12 @@ func (s *programState) receiveFrom(destination parser.Destination, amount *big.I
 				break
 			}
 
-			err = handler(destinationClause.To, utils.MinBigInt(cap, remainingAmount))
+			// a negative cap counts as zero (same as on the source side)
+			cappedAmount := utils.MinBigInt(cap, remainingAmount)
+			if cappedAmount.Sign() == -1 {
+				cappedAmount.SetInt64(0)
+			}
+			err = handler(destinationClause.To, cappedAmount)
 			if err != nil {
 				return err
 			}
